@@ -76,9 +76,9 @@ LOSSES = {
     "FWSE": (StandardQTomographyBasedWeightedProbabilityBasedSquaredError,
              StandardQTomographyBasedWeightedProbabilityBasedSquaredErrorOption,
              ["identity", "custom", "inverse_sample_covariance", "inverse_unbiased_covariance"]),
-    "WRE": (WeightedRelativeEntropy, WeightedRelativeEntropyOption, ["identity"]),
+    "WRE": (WeightedRelativeEntropy, WeightedRelativeEntropyOption, ["identity", "custom"]),
     "FWRE": (StandardQTomographyBasedWeightedRelativeEntropy, StandardQTomographyBasedWeightedRelativeEntropyOption,
-             ["identity"]),
+             ["identity", "custom"]),
 }
 WEIGHTED = ("custom", "inverse_sample_covariance", "inverse_unbiased_covariance")
 
@@ -364,7 +364,10 @@ def build_lopt(spec, live=None):
     w = None
     if spec["mode"] == "custom":
         src = live.weights if live is not None else spec["weights"]
-        w = [np.array(x, copy=True) for x in src]
+        if spec["cls"] in ("WRE", "FWRE"):
+            w = [float(x) for x in src]          # one scalar weight per schedule
+        else:
+            w = [np.array(x, copy=True) for x in src]
     return cls(spec["mode"], weights=w)
 
 
@@ -777,7 +780,7 @@ def init_specs(g, tier_quick):
                     w = []
                     for _ in range(nsched[qt]):
                         a = g.standard_normal((2, 2))
-                        w.append(a @ a.T + 0.5 * np.eye(2))
+                        w.append(float(g.uniform(0.5, 2.0)) if cls in ("WRE", "FWRE") else a @ a.T + 0.5 * np.eye(2))
                     add(f"lo_{cls}_custom@{qt}", "lopt", {"cls": cls, "mode": mode, "weights": w})
             else:
                 add(f"lo_{cls}_{mode}", "lopt", {"cls": cls, "mode": mode, "weights": None})
@@ -1440,9 +1443,8 @@ def oracle(ctx, volume=1):
                 "(did not raise in both worlds); distinct by (history, step, operation, operands)")
     ctx.partial += [
         {"theorem": "gen_reuse_refines_fresh_partial / fast_reuse_refines_fresh_partial",
-         "missing": "histories containing a weight-installing dataset: false on the tree (D9, generic identity-after-custom); negation witnesses *_fails"},
+         "missing": "an identity-mode dataset after a weight-installing one: false on the tree (C13-F1, `pass` keeps the earlier weights); negation witnesses *_fails"},
         {"theorem": "algo_reuse_refines_fresh_partial", "missing": "histories in which the requested projection changes: false on the tree (D10)"},
-        {"theorem": "projEq_arg_unchanged_partial", "missing": "on_para_eq_constraint=False: argument overwritten (D5)"},
     ]
 
 
@@ -1613,7 +1615,6 @@ def _correspondence(ctx):
         ctx.case(("mprojeq", m, flag, tuple(var)), sample={"op": "mprojeq", "m": m, "flag": flag})
         ctx.count(f"mprojeq flag={flag}")
     out = drv.run()
-    fixed_d5 = False
     for op, inp, impl, i in pend:
         ctx.corr_ops.add(op)
         r = out[i]
@@ -1642,14 +1643,9 @@ def _correspondence(ctx):
             t = r.split()
             mres = [float(x) for x in unqlist(t[0])]
             marg = [float(x) for x in unqlist(t[1])]
-            okk = allclose(res, mres) and (allclose(arg, marg) or np.array_equal(arg, var))
-            if np.array_equal(arg, var) and not allclose(arg, marg):
-                fixed_d5 = True
+            okk = allclose(res, mres) and np.array_equal(arg, var) and allclose(arg, marg)
             if not okk:
                 ctx.disagree(op, inp, (res.tolist(), arg.tolist()), r)
-    if fixed_d5:
-        ctx.notes.append("MProcess.calc_proj_eq_constraint_with_var leaves its argument unchanged on this tree (D5 repaired): "
-                         "the model clause projEq_alias_arg_becomes_result describes the unrepaired code")
 
 
 def _frac(s):
